@@ -62,11 +62,29 @@ def dec_value(ds, bits):
     return acc
 
 
+WIDE = 96
+
+
+def wide_value(cs):
+    acc = z3.BitVecVal(0, WIDE)
+    for d in cs:
+        dv = z3.BitVecVal(d - 48, WIDE) if isinstance(d, int) else z3.ZeroExt(WIDE - 32, d) - 48
+        acc = acc * 10 + dv
+    return acc
+
+
 def number(cs, bits):
-    """digits only (short strings: no overflow below 10 digits for u32, 20 for u64) -> [(guard, value)]"""
-    if not cs or len(cs) > (9 if bits == 32 else 19):
+    """digits only, value must fit the type -> [(guard, value)]"""
+    if not cs or len(cs) > 24:
         return []
-    return [(b_and(*[is_digit(c) for c in cs]), dec_value(cs, bits))]
+    if len(cs) <= (9 if bits == 32 else 19):
+        return [(b_and(*[is_digit(c) for c in cs]), dec_value(cs, bits))]
+    if all(isinstance(d, int) for d in cs):
+        v = int("".join(chr(d) for d in cs)) if all(48 <= d <= 57 for d in cs) else None
+        return [(True, v)] if v is not None and v < (1 << bits) else []
+    V = wide_value(cs)
+    fits = z3.ULT(V, z3.BitVecVal(1 << bits, WIDE))
+    return [(b_and(*[is_digit(c) for c in cs], fits), z3.Extract(bits - 1, 0, V))]
 
 
 def signed(cs, inner):
@@ -81,14 +99,28 @@ def signed(cs, inner):
     return out
 
 
+SIZE_MULT = {"Block": 512, "Byte": 1, "Word": 2, "KiloByte": 1 << 10, "MegaByte": 1 << 20, "GigaByte": 1 << 30, "TeraByte": 1 << 40}
+
+
+def size_fits(v, name):
+    """a size is in the language only if count x unit fits 64 bits"""
+    m = SIZE_MULT[name]
+    if isinstance(v, int):
+        return v * m < (1 << 64)
+    return z3.ULT(z3.ZeroExt(64, v) * z3.BitVecVal(m, 128), z3.BitVecVal(1 << 64, 128))
+
+
 def with_unit(cs, units, default, ty):
     out = []
     for g, v in number(cs, 64):
-        out.append((g, Adt(ty, default, [v])))
+        out.append((b_and(g, size_fits(v, default)) if ty == "Size" else g, Adt(ty, default, [v])))
     if len(cs) >= 2:
         for g, v in number(cs[:-1], 64):
             for u, name in units.items():
-                out.append((b_and(g, ceq(cs[-1], u)), Adt(ty, name, [v])))
+                gg = b_and(g, ceq(cs[-1], u))
+                if ty == "Size":
+                    gg = b_and(gg, size_fits(v, name))
+                out.append((gg, Adt(ty, name, [v])))
     return out
 
 
